@@ -4,7 +4,7 @@ import re
 import json
 from .. import sym
 from ..sym import T
-from ..values import Seq
+from ..values import Seq, Adt
 
 def ev(t, mdl):
     if t is None:
@@ -234,6 +234,21 @@ def script_from_state(m, sc, v, trail=None):
                 owner = env.calls[int(mm.group(2))].task
             except Exception:
                 owner = None
+            if v.kind in TIME_KINDS:
+                # time the model lets pass while this call is outstanding (last clock reading of its task before the call,
+                # first one after the answer was consumed): natively the paused clock is moved before the answer arrives
+                try:
+                    cid = int(mm.group(2))
+                    i_call = next(i for i, e in enumerate(st.events) if e[0] == 'rpc_call' and e[1] == cid)
+                    i_ret = next(i for i, e in enumerate(st.events) if e[0] == 'rpc_return' and e[1] == cid)
+                    before = [e[1] for e in st.events[:i_call] if e[0] == 'clock']
+                    after = [e[1] for e in st.events[i_ret:] if e[0] == 'clock']
+                    if before and after:
+                        d_ms = (int(sym.evaluate(after[0], mdl)) - int(sym.evaluate(before[-1], mdl))) // 1000000
+                        if d_ms > 0:
+                            deferred.append((owner, {'op': 'advance', 'ms': min(d_ms + 1, 10 ** 13)}))
+                except StopIteration:
+                    pass
             deferred.append((owner, op))
             continue
         mm = re.match(r'^part(\d+)->(\w+)$', lab)
@@ -266,6 +281,11 @@ def script_from_state(m, sc, v, trail=None):
             nb = len([x for x in steps if x.get('op') == 'block'])
             steps.append({'op': 'block', 'height': ev(hs[nb] if nb < len(hs) else env.height, mdl)})
             continue
+        if lab == 'height poll':
+            # the watcher's poll loop fires after its 60 s interval; its getinfo stays outstanding unless the model answers it
+            steps.append({'op': 'advance', 'ms': 60001})
+            steps.append({'op': 'settle'})
+            continue
         if lab == 'CRASH':
             steps.append({'op': 'restart'})
             # replayed HTLCs may carry changed fields (relative expiry shrunk while the plugin was down)
@@ -280,6 +300,22 @@ def script_from_state(m, sc, v, trail=None):
         steps.append({'op': 'settle'})
     if v.kind not in LOCK_KINDS:
         flush()           # (lock probes run while the answers the model had not handed over yet are still outstanding)
+    # wall-clock time the model let pass since a stored attempt was recorded (natively SystemTime is not the paused tokio
+    # clock): after the last restart the stored Pending attempt is made that much older
+    try:
+        ridx = max(i for i, x in enumerate(steps) if x.get('op') == 'restart')
+        for key, ent in env.datastore.items():
+            tok = ent[0].tag if isinstance(ent[0], Seq) else None
+            val = getattr(tok, 'value', None)
+            if key[-1] == 'state' and isinstance(val, Adt) and val.variant == 'Pending':
+                at = val.fields[1]
+                now_s = int(sym.evaluate(env.clock, mdl)) // 1000000000 if isinstance(env.clock, T) else 0
+                at_s = int(sym.evaluate(at, mdl)) if isinstance(at, T) else int(at)
+                if now_s > at_s:
+                    steps.insert(ridx + 1, {'op': 'age_records', 's': min(now_s - at_s, 86400 * 365 * 30)})
+                break
+    except ValueError:
+        pass
     if v.kind == 'timer-not-started-after-store-answer':
         steps.append({'op': 'advance', 'ms': int(config['mpp_timeout_s']) * 600})
         steps.append({'op': 'settle'})
@@ -375,7 +411,9 @@ def j_answered_while_paying(v, script, nat):
                 return True, 'htlcs %s answered before pay returned' % gone
     return False, 'all htlcs still held when pay returned'
 
-LOCK_KINDS = ('blocking-send-under-lock', 'rpc-under-payments-lock', 'timer-under-payments-lock', 'self-deadlock', 'other-hash-delayed')
+TIME_KINDS = ('gate-not-enforced',)
+LOCK_KINDS = ('blocking-send-under-lock', 'rpc-under-payments-lock', 'timer-under-payments-lock', 'self-deadlock', 'other-hash-delayed',
+              'lock-wait-under-payments-lock')
 
 def j_lock(v, script, nat):
     import hashlib
@@ -744,6 +782,7 @@ JUDGES = {
     'rpc-under-payments-lock': j_lock,
     'timer-under-payments-lock': j_lock,
     'self-deadlock': j_lock,
+    'lock-wait-under-payments-lock': j_lock,
     'other-hash-delayed': j_lock,
     'pay-for-incomplete-set': j_timeout,
     'wrong-timeout': j_timeout,
